@@ -246,8 +246,9 @@ func (w c08) Run(b api.Batch) *api.Result {
 			class := kind + ":" + fieldOf(diff)
 			id := ""
 			// KF-D1: instructions keep the operand a forwarding variant (MVP-6.1+)
-			// last forwarded to them; a second machine given the same Application reads it
-			if kf.IsOpen("C08", "KF-D1") && kind == "application-reuse" && p.ReuseOn != nil && p.ReuseOn.V >= mach.MVP61 {
+			// last forwarded to them; a second machine WITHOUT forwarding (MVP-1..6.0,
+			// whose decode does not clear it) given the same Application reads it
+			if kf.IsOpen("C08", "KF-D1") && kind == "application-reuse" && p.ReuseOn != nil && p.ReuseOn.V >= mach.MVP61 && cfg.V < mach.MVP61 {
 				id = "KF-D1"
 			}
 			if id != "" {
